@@ -310,6 +310,24 @@ async fn run_shwap(ctx: &Arc<RunCtx>) {
                     }
                 }
                 drop(respond_to);
+                // ---- the same row through the shrex response codec (encode -> decode_and_verify)
+                {
+                    let truth = sq.eds.row(i).expect("row");
+                    if let Ok(honest_row) = Row::new(i, &sq.eds) {
+                        let bytes = shrex::encode_row(&honest_row);
+                        let (dah, id2) = (sq.dah.clone(), id);
+                        let res = tokio::spawn(async move { shrex::decode_row(&bytes, &id2, &dah, AppVersion::V2) }).await;
+                        ctx.oracle("C05.honest_encodings_accepted");
+                        match res {
+                            Ok(Ok(row)) if row.shares == truth => ctx.probe("row_delivered_over_shrex"),
+                            Ok(Ok(row)) => ctx.violation("C05", "delivered_row_is_committed_row", "shrex",
+                                format!("the shrex codec decoded row {i} of height {h} (width {w}) to {} shares that are not the committed row", row.shares.len())),
+                            Ok(Err(e)) => ctx.violation("C05", "honest_encodings_accepted", "shrex_codec",
+                                format!("the shrex encoding of row {i} of height {h} (width {w}) was rejected: {e}")),
+                            Err(_) => report_panic(ctx, "C05", "shrex_decode_row"),
+                        }
+                    }
+                }
                 match task.await {
                     Ok(Ok(row)) => {
                         ctx.oracle("C05.delivered_row_is_committed_row");
